@@ -10,7 +10,10 @@ def run(prog, rep, tier):
                   "polarities come from one overload table; A4: operator!(pred_result) is {no->yes, yes->no, fail->fail} and pred_not is built only "
                   "by maybe_invert/build_pred; A5: every origin->set_next gets make_unique<stack>(copy) where the incoming stack must survive, or a "
                   "moved stack not used afterwards; A6: op_subx::next (let, infix operands) and op_capture::next never return the stack that their inner "
-                  "chain produced.")
+                  "chain produced; A7: build_exec/build_pred interpreted from source on a node of every sub-expression kind (?( ), [ ], let/infix operand, "
+                  "*, +, if-else, ALT, OR, format splice, block) with every kind of operand (bare and SCOPE-wrapped), every outcome of a name lookup and "
+                  "0-2 kept values: the operand's chain is always fed by an origin/tine created for it, never by the incoming stream (only a "
+                  "one-value SUBX_EVAL of a literal may be built in place).")
     rep.not_decided = "that each predicate computes the documented truth value for its operands."
     apply(rep, "A1", "predicates are read-only on their stack", r_pred.a1(prog), 20)
     apply(rep, "A2", "op_assert yields the pulled stack unchanged", r_pred.a2(prog), 1)
@@ -25,4 +28,6 @@ def run(prog, rep, tier):
     import r_pure
     apply(rep, "Q4c", "stack copies are deep: a copy never aliases storage that `add` mutates in place", r_pure.q4c(prog), 3)
     apply(rep, "A6", "let/infix/capture yield the outer stack, never the sub-expression's", r_pred.a6(prog), 2)
+    import r_build
+    apply(rep, "A7", "every sub-expression context builds its operand on a stream of its own, never on the incoming stack (abstract evaluation of build_exec)", r_build.a7(prog), 10)
     maybe_mutants("C04", rep, tier)
